@@ -17,7 +17,7 @@ use std::{str::FromStr, sync::OnceLock};
 pub struct C03Prop;
 pub static C03: C03Prop = C03Prop;
 
-pub const TOKENS: [&str; 138] = [
+pub const TOKENS: [&str; 140] = [
     // keywords
     "if", "else", "match", "import", "return", "loop", "while", "for", "in", "break", "continue", "mut", "struct", "mod",
     "true", "false",
@@ -31,7 +31,7 @@ pub const TOKENS: [&str; 138] = [
     "(", ")", "[", "]", "{", "}", ";", ",", ":", ":=", "=>", "->", ".", ".0", ".1", ".a", "()", "[]", "{}",
     // literals
     "0", "1", "5", "64", "0x1F", "0b101", "9223372036854775807", "9223372036854775808", "1.5", "0.0", "1e3", "\"s\"",
-    "\"\"", "\"scratch_ok\"", "\"scratch_missing\"",
+    "\"\"", "\"scratch_ok\"", "\"scratch_missing\"", "\"scratch_\\q\"", "\"\\u{110000}\"",
     // identifiers (bound in the environment used for parsing) and unbound ones
     "a", "b", "x", "f", "i", "m", "s", "t", "std", "len", "zz", "_",
     // composite fragments that reach deeper rules quickly
@@ -652,6 +652,9 @@ pub fn run(session: &Session) -> i32 {
     }
     for p in crate::genr::nearmiss::literal_spelling_programs() {
         cases.push(json!({"src": "literal-spelling", "text": p}));
+    }
+    for p in crate::genr::nearmiss::string_spelling_programs() {
+        cases.push(json!({"src": "string-spelling", "text": p}));
     }
     for p in import_programs() {
         cases.push(json!({"src": "imports", "text": p}));
